@@ -221,7 +221,7 @@ def mm_preseal():
                 ensures=[C("det", "res == spec_preseal(state)", det=True),
                          C("frame", "pool_phase_frame(state, res) && res.fee_pool == state.fee_pool", "C15", "C17", "C05"),
                          C("inv", "state_inv(res)", "C20"),
-                         C("builtins", "spec_builtin_pools(res) && builtins_live(res) && pools_ok(res.pools@)", "C16"),
+                         C("builtins", "spec_builtin_pools(res) && builtins_live(res) && pools_ok(res.pools@)", "C16", "C09"),
                          C("ids", "ids_new(state.coins@.coins, res.coins@.coins)", "C20", "C02", note="settlement introduces no coin id other than ids of transaction outputs"),
                          C("young", "young(state.coins@.coins, res.coins@.coins, state.height)", "C09", "C02", note="every coin settlement leaves behind is untouched or was written at this block's height (under the pre-978392 deposit rule too)"),
                          C("markers", "!deposit_legacy(state.network, state.height) ==> markers_kept(state.coins@.coins, res.coins@.coins)", "C19",
@@ -248,14 +248,14 @@ def st_seal_full():
                            note="sealing never removes or overwrites a faucet's dedup marker: settlement writes under transaction-output ids, the reward coin under the reward pseudo-id (A-HASH domain separation)"),
                          C("frame", "res.0.network == self.network && res.0.height == self.height && res.0.history == self.history && res.0.transactions == self.transactions && res.0.stakes == self.stakes && res.0.dosc_speed == self.dosc_speed", "C07", "C06"),
                          C("inv", "res.0.coins.wf() && spec_builtin_pools(res.0)", "C16", "C20"),
-                         C("sinv", "state_inv(res.0) && pools_ok(res.0.pools@) && builtins_live(res.0)", "C16", "C20", note="sealing preserves the state invariants"),
+                         C("sinv", "state_inv(res.0) && pools_ok(res.0.pools@) && builtins_live(res.0)", "C16", "C20", "C09", note="sealing preserves the state invariants"),
                          C("hinv", "hinv(self) ==> hinv_sealed(res.0)", "C09", "C18", "C05",
                            note="chain invariants through sealing: settlement writes coins at this height under transaction-output ids, the reward coin at this height under this height's pseudo-id (so the NEXT height's reward id is still free: what collect_proposer_action_fee needs)")])
 
 def st_next_unsealed():
     return dict(requires=[C("chain", "chain_ok(self.0) && self.0.height.0 < u64::MAX"), C("wf", "state_inv(self.0)")],
                 ensures=[C("det", "res == spec_next(*self)", det=True),
-                         C("next", "next_rel(self.0, res)", "C07", "C13"),
+                         C("next", "next_rel(self.0, res)", "C07", "C13", "C06", "C01", "C02", "C19"),
                          C("chain", "chain_ok(res)", "C07"),
                          C("inv", "state_inv(res)", "C20"),
                          C("hinv", "hinv_sealed(self.0) ==> hinv(res)", "C09", "C18", note="opening the next block: the sealed header (with its non-zero DOSC speed) enters the history below the new height; coins are untouched")])
@@ -294,7 +294,7 @@ def mm_phase(name, extra_props=()):
     return dict(requires=[C("inv", "state_inv(state) && builtins_live(state) && pools_ok(state.pools@)")],
                 ensures=[C("frame", "pool_phase_frame(state, res) && res.fee_pool == state.fee_pool", "C15", "C17", "C05"),
                          C("inv", "state_inv(res) && pools_ok(res.pools@)", "C20", "C16"),
-                         C("builtins", "builtins_live(res) && (forall|k: PoolKey| state.pools@.contains_key(k) ==> #[trigger] res.pools@.contains_key(k))", "C16"),
+                         C("builtins", "builtins_live(res) && (forall|k: PoolKey| state.pools@.contains_key(k) ==> #[trigger] res.pools@.contains_key(k))", "C16", "C09"),
                          C("young", "young(state.coins@.coins, res.coins@.coins, state.height)", "C09", "C02", note="every coin the phase leaves behind is untouched or was written at this block's height (chain invariant coin_heights_ok)")])
 
 # ---- batch application (src/state/applytx.rs)
